@@ -5,6 +5,8 @@ pub mod c07;
 pub mod c08;
 pub mod c09;
 pub mod c10;
+pub mod c18;
+pub mod c19;
 pub mod sets;
 pub mod c20;
 
@@ -20,6 +22,8 @@ pub fn run(id: &str, tier: Tier, seed: u64, known: &[Known]) -> Option<Report> {
         "C08" => c08::run(tier, seed),
         "C09" => c09::run(tier, seed),
         "C10" => c10::run(tier, seed),
+        "C18" => c18::run(tier, seed),
+        "C19" => c19::run(tier, seed),
         "C20" => c20::run(tier, seed),
         _ => return None,
     })
@@ -32,6 +36,8 @@ pub fn replay(id: &str, section: &str, case: &Value) -> Option<Result<(), String
         "C08" => c08::replay(section, case),
         "C09" => c09::replay(section, case),
         "C10" => c10::replay(section, case),
+        "C18" => c18::replay(section, case),
+        "C19" => c19::replay(section, case),
         "C20" => c20::replay(section, case),
         _ => None,
     }
